@@ -346,6 +346,9 @@ def run(pid, tier, replay=None):
     rc_ = crash_stage(chk, quick, rng, pid, cfg, keys)
     if rc_:
         return rc_
+    from checks import bigstore
+    bigstore.stage(chk, quick, rng, pid)
+    sk.apply_cfg(cfg)
     chk.extra["concurrent_hand_overs_during_a_flush"] = info.pop("concurrent_hand_overs", 0)
     if lock_traces:
         vl, rlt = tracecheck.run("TraceStoreLock", lock_traces, {"Writers": {1, 2}, "Blocks": set(), "LockScope": "whole", "MaxFlushes": 99, "Prop": pid},
